@@ -7,7 +7,7 @@
 From Coq Require Import ZArith NArith List Permutation.
 Import ListNotations.
 From Stam Require Import Base.Tac Model.Limit Model.Handles Spec.HandlesSpec Proofs.Limit Proofs.Handles.
-From Stam Require Import Model.Offset Model.Store Model.DataValue Model.QuerySem Spec.QuerySpec Proofs.QuerySem.
+From Stam Require Import Model.Offset Model.Store Model.StoreObs Model.DataValue Model.QuerySem Spec.QuerySpec Proofs.QuerySem.
 
 Theorem C08_limit_is_slice : forall (X : Type) (bg en : Z) (l : list X),
   limit bg en l = slice_spec bg en l.
@@ -113,6 +113,28 @@ Proof. exact sem_add. Qed.
 
 Theorem C08_sem_delete : forall s x sub, exec_delete s x sub (sem s [] sub) = spec_delete s x sub.
 Proof. exact sem_delete. Qed.
+
+(* however evaluated: on every reachable store the reverse index the evaluator reads for the first
+   constraint delivers exactly the level of [sem] (by C01: every reverse index is exact) *)
+Theorem C08_route_resource : forall ops e tok r, res_by_id (run ops) tok = Some r ->
+  level (run ops) e TAnn [CRes (RId tok) false] None = map IAnn (m_res_text (run ops) r).
+Proof. exact route_resource. Qed.
+
+Theorem C08_route_resource_metadata : forall ops e tok r, res_by_id (run ops) tok = Some r ->
+  level (run ops) e TAnn [CRes (RId tok) true] None = map IAnn (m_res_meta (run ops) r).
+Proof. exact route_resource_metadata. Qed.
+
+Theorem C08_route_dataset_metadata : forall ops e tok d, set_by_id (run ops) tok = Some d ->
+  level (run ops) e TAnn [CSet (RId tok) true] None = map IAnn (m_set_meta (run ops) d).
+Proof. exact route_dataset_metadata. Qed.
+
+Theorem C08_route_annotation_target : forall ops e tok y, ann_by_id (run ops) tok = Some y ->
+  level (run ops) e TAnn [CAnn (RId tok) true] None = map IAnn (m_ann_anns (run ops) y).
+Proof. exact route_annotation_target. Qed.
+
+Theorem C08_route_data_variable : forall ops e v d x, lookup e v = Some (IData d x) ->
+  level (run ops) e TAnn [CDataVar v false] None = map IAnn (m_data_anns (run ops) d x).
+Proof. exact route_data_variable. Qed.
 
 (** * Layer 3: the classes of queries on which the evaluator (as far as modelled: the dispatch
     tables, the routes through AnnotationSelectors, the source orders and the QueryIter state
